@@ -34,6 +34,7 @@ func checkC10(r *Run) {
 	ruleTakeAtomically(r, p, "TAKE")
 	ruleSetRetryStateless(r, p, "TAKE")
 	ruleClaimOnEveryRetry(r, p, "TAKE")
+	rulePollDeliversOnce(r, p, "SINGLE")
 	r.Floor("TAKE", 2)
 	r.Floor("A19", 3)
 	r.Floor("COPY", 1)
@@ -43,16 +44,23 @@ func checkC10(r *Run) {
 
 func ruleCopyBeforePublish(r *Run, p *Prog, w *ssa.Function) {
 	w = p.View(w, "", nil)
-	var set *ssa.Call
+	var sets []*ssa.Call
 	eachInstr(w, func(b *ssa.BasicBlock, i int, in ssa.Instruction) {
 		if c, ok := in.(*ssa.Call); ok && c.Call.IsInvoke() && c.Call.Method.Name() == "Set" {
-			set = c
+			sets = append(sets, c)
 		}
 	})
-	if set == nil {
+	if len(sets) == 0 {
 		r.Ob("COPY", FnName(w)+"/publish", p.Pos(w.Pos()), false, true, "Write does not publish to the ring")
 		return
 	}
+	// every publication site is judged (a size-dependent shortcut publishes from a second site)
+	for k, set := range sets {
+		copyBeforePublishAt(r, p, w, set, tern(k == 0, "", "#"+itoa(k+1)))
+	}
+}
+
+func copyBeforePublishAt(r *Run, p *Prog, w *ssa.Function, set *ssa.Call, suffix string) {
 	arg := set.Call.Args[0]
 	for {
 		if cv, ok := arg.(*ssa.Convert); ok {
@@ -128,7 +136,7 @@ func ruleCopyBeforePublish(r *Run, p *Prog, w *ssa.Function) {
 			why = "published value = " + descr(stored)
 		}
 	}
-	r.Ob("COPY", FnName(w)+"/copy-before-publish", p.Pos(set.Pos()), okc, true, tern(okc, "the ring receives a private copy of p ("+why+")", "the ring does not receive a private copy of the caller's bytes ("+why+"): zerolog reuses p as soon as Write returns, so the consumer would deliver modified bytes"))
+	r.Ob("COPY", FnName(w)+"/copy-before-publish"+suffix, p.Pos(set.Pos()), okc, true, tern(okc, "the ring receives a private copy of p ("+why+")", "the ring does not receive a private copy of the caller's bytes ("+why+"): zerolog reuses p as soon as Write returns, so the consumer would deliver modified bytes"))
 	// returns len of the data, nil
 }
 
